@@ -6,7 +6,7 @@
     pageInfo was selected, how each getter call handed over its result, the response and the
     (min, max, limit) triples the getter received. *)
 From Coq Require Import List NArith ZArith Bool String.
-From ApiFu Require Import Base.Sexp TimeConn.TimeModel TimeConn.TimeSpec TimeConn.TimeErrModel TimeConn.TimeCursorCodec.
+From ApiFu Require Import Base.Sexp TimeConn.TimeModel TimeConn.TimeSpec TimeConn.TimeErrModel TimeConn.TimeCursorCodec TimeConn.GoTimeModel.
 Import ListNotations.
 Open Scope string_scope.
 
@@ -588,7 +588,31 @@ Fixpoint first_some {A} (f : nat -> A -> option sexp) (i : nat) (l : list A) : o
   | x :: l' => match f i x with Some v => Some v | None => first_some f (S i) l' end
   end.
 
+(** ** [NewTimeBasedCursor] / [TimeBasedCursor.Time] on arbitrary [time.Time] values: the harness
+    reports a time (Unix seconds, nanoseconds), the Nano the library's constructor computed for it,
+    and the time [Time()] makes of that cursor; the model must compute both. *)
+Definition check_far (l : list sexp) : sexp :=
+  match l with
+  | [s; n; nano; bs; bn] =>
+      match as_Z s, as_Z n, as_Z nano, as_Z bs, as_Z bn with
+      | Some s', Some n', Some nano', Some bs', Some bn' =>
+          let t := {| gsec := s' + unix_to_internal; gnsec := n'; gmono := None; gloc := 0 |} in
+          let c := new_cursor t [] in
+          let back := cursor_time c in
+          if negb (Z.leb 0 n' && Z.ltb n' GoTimeModel.giga) then v_bad "far-nanoseconds"
+          else if negb (Z.eqb (TimeModel.nano c) nano') then v_mismatch "new-cursor-nano" []
+          else if negb (Z.eqb (gsec back - unix_to_internal) bs' && Z.eqb (gnsec back) bn') then v_mismatch "cursor-time" []
+          else if Z.eqb (inst back) (inst t) then v_ok ["cursor-denotes-edge-time"]
+          else v_ok ["cursor-wraps-edge-time-outside-int64-nanoseconds"]
+      | _, _, _, _, _ => v_bad "far-decode"
+      end
+  | _ => v_bad "far-shape"
+  end.
+
 Definition check (c : sexp) : sexp :=
+  match tagged "far" c with
+  | Some l => check_far l
+  | None =>
   match tagged "case" c with
   | Some l =>
       match field1 "edges" l, field1 "getter" l, field1 "kind" l, field1 "steps" l with
@@ -625,4 +649,5 @@ Definition check (c : sexp) : sexp :=
       | _, _, _, _ => v_bad "fields"
       end
   | None => v_bad "shape"
+  end
   end.
